@@ -1,5 +1,7 @@
 package main
 
+import "verifharness/records"
+
 // extraMain dispatches the record-validation subcommands (added per property family).
 func extraMain(cmd string, args []string) bool {
 	if f, ok := extraCmds[cmd]; ok {
@@ -9,4 +11,6 @@ func extraMain(cmd string, args []string) bool {
 	return false
 }
 
-var extraCmds = map[string]func([]string){}
+var extraCmds = map[string]func([]string){
+	"logbuf": records.LogbufMain,
+}
